@@ -1087,9 +1087,9 @@ def search(ck, rng):
                                replay_py=f'from chython import smiles\nm = smiles({raw!r}); m.standardize(); print(m, smiles({want!r}))')
     # (2) all operations on valence-valid corpus / decorated / hand-made molecules
     pool = []
-    for s in corpus.sample(lip, 35 if quick else 250, ck.seed, 'c14-search'):
+    for s in corpus.sample(lip, 28 if quick else 250, ck.seed, 'c14-search'):
         pool.append(('corpus', s, None))
-    for k, s in enumerate(corpus.sample(lip, 35 if quick else 250, ck.seed, 'c14-search-dec')):
+    for k, s in enumerate(corpus.sample(lip, 28 if quick else 250, ck.seed, 'c14-search-dec')):
         pool.append(('decorated', s, k))
     for tag, s in mol_inputs(ck, rng):
         pool.append((tag, s, None))
@@ -1137,7 +1137,7 @@ def search(ck, rng):
             if quick and tag in ('doc', 'documented result') and name not in ('standardize', 'canonicalize', 'fix_resonance', 'standardize_charges',
                                                                               'explicify_hydrogens' if tag == 'doc' else 'neutralize'):
                 continue
-            if quick and tag == 'salt' and name not in ('neutralize', 'neutralize(keep_charge=False)', 'canonicalize', 'standardize', 'explicify_hydrogens'):
+            if quick and tag == 'salt' and name not in ('neutralize', 'neutralize(keep_charge=False)', 'canonicalize'):
                 continue
             if 'keep_kekule' in name and (tag in ('doc', 'documented result') or (tag in ('corpus', 'decorated') and hash_pick(s, 'kk') % 3)):
                 continue
